@@ -666,6 +666,24 @@ where
                 self.slots[*dst] = Some(l);
                 Obs::Unit
             }
+            Op::IterConsume { h, alias, k } => match self.slots.get_mut(*h).and_then(|s| s.take()) {
+                Some(l) => {
+                    let mut it = l.into_iter();
+                    let mut out: Vec<E> = Vec::new();
+                    for _ in 0..*k {
+                        match it.next() {
+                            Some(x) => out.push(x),
+                            None => break,
+                        }
+                    }
+                    if let Some(s) = self.slots.get_mut(*alias) {
+                        *s = None;
+                    }
+                    out.extend(it);
+                    Obs::Vals(vals_to_m(out, &mut self.inner, "consuming into_iter"))
+                }
+                None => Obs::Skipped,
+            },
             Op::TmpGet { vals, i } => {
                 let a = E::from_m(&vals[0], &self.inner);
                 let b = E::from_m(&vals[1], &self.inner);
